@@ -45,8 +45,9 @@ def compare_with_model(ctx, behs, evs, label):
 def classify(bad_entry, evs):
     """Known-finding signatures, decided from the recorded history of the trace the violation is in."""
     tr, clause, line = bad_entry
-    if clause not in C02:
-        return None
+    # A known interleaving earlier in the trace explains a later violation of ANY clause: e.g. a stale update of an earlier
+    # term that is applied after the same member was re-elected leaves the window where it is but moves the physical time
+    # back, and the next grants repeat timestamps another member handed out (a C01 clause) - found by the thorough tier.
     # events of this trace up to the violating line
     lo = line - 1
     while lo > 0 and evs[lo].get('ev') != 'reset':
@@ -94,8 +95,11 @@ def handle_bad(ctx, clauses, bad, evs, label):
         if b[0] in tainted:
             continue
         sig = classify(b, evs)
-        known = [f for f in findings if f.get('signature') == sig]
+        known = sorted([f for f in findings if f.get('signature') == sig], key=lambda f: f['property'] != ctx.pid)
         if known:
+            if known[0]['property'] != ctx.pid and b[1] in clauses:
+                k = 'violations_explained_by_a_known_finding_of_another_property'
+                ctx.extra.setdefault(k, {})[known[0]['id']] = ctx.extra.get(k, {}).get(known[0]['id'], 0) + 1
             # a known defect has corrupted this trace; later violations in it are consequences
             tainted.add(b[0])
             hits.append(known[0]['id'])
